@@ -3,21 +3,27 @@
 package main
 
 import (
+	"bufio"
 	"context"
+	"encoding/json"
 	"flag"
 	"fmt"
 	"os"
+	"strings"
 	"time"
 
 	pb "github.com/AliceO2Group/Control/core/protos"
 
 	"verif/harness/coresim"
+	"verif/harness/vtrace"
 )
 
 func main() {
 	mode := flag.String("mode", "smoke", "smoke | core | <family>")
 	work := flag.String("work", "", "work directory")
 	verbose := flag.Bool("v", false, "core logs on stderr")
+	scenarios := flag.String("scenarios", "", "NDJSON scenarios (one batch sharing a core configuration)")
+	trace := flag.String("trace", "", "NDJSON trace output")
 	flag.Parse()
 	if *mode == "core" {
 		coresim.CoreMain(flag.Args())
@@ -28,6 +34,8 @@ func main() {
 		os.Exit(2)
 	}
 	switch *mode {
+	case "run":
+		run(*work, *scenarios, *trace, !*verbose)
 	case "smoke":
 		smoke(*work, !*verbose)
 	default:
@@ -72,6 +80,45 @@ func smoke(work string, quiet bool) {
 	t0 = time.Now()
 	d, err := cl.DestroyEnvironment(ctx, &pb.DestroyEnvironmentRequest{Id: id})
 	fmt.Println("Destroy", time.Since(t0), d, err)
+}
+
+func run(work, scnFile, traceFile string, quiet bool) {
+	f, err := os.Open(scnFile)
+	must(err)
+	sc := bufio.NewScanner(f)
+	sc.Buffer(make([]byte, 1<<20), 1<<27)
+	batch := []*coresim.Scenario{}
+	for sc.Scan() {
+		if len(strings.TrimSpace(sc.Text())) == 0 {
+			continue
+		}
+		s := &coresim.Scenario{}
+		must(json.Unmarshal(sc.Bytes(), s))
+		batch = append(batch, s)
+	}
+	if len(batch) == 0 {
+		fmt.Println("scenarios=0")
+		return
+	}
+	rec, err := vtrace.New(traceFile)
+	must(err)
+	self, _ := os.Executable()
+	r, err := coresim.NewRunner(work, rec, batch, self, quiet)
+	must(err)
+	done, skipped := 0, []int{}
+	for _, s := range batch {
+		if r.Tainted() {
+			skipped = append(skipped, s.ID)
+			continue
+		}
+		r.Run(s)
+		done++
+	}
+	must(rec.Close())
+	r.Close()
+	sk, _ := json.Marshal(skipped)
+	fmt.Printf("scenarios=%d lines=%d tainted=%v skipped=%s\n", done, rec.Lines(), r.Tainted(), sk)
+	os.Exit(0)
 }
 
 func must(err error) {
